@@ -181,6 +181,10 @@ func (m *Machine) separatorFree(t *Term, sep string) bool {
 			return strings.Contains(ex, sep) && len(sep) == 1
 		}
 	}
+	// agentF1: base64 output consists of alphabet characters only
+	if t.Op == "uf" && len(sep) == 1 && strings.HasPrefix(t.S, "u_b64") && !strings.Contains(t.S[1:], "_dec") && !strings.Contains(t.S[1:], "_ok") {
+		return !strings.Contains("ABCDEFGHIJKLMNOPQRSTUVWXYZabcdefghijklmnopqrstuvwxyz0123456789+/-_=", sep)
+	}
 	return false
 }
 
@@ -227,6 +231,22 @@ func init() {
 	})
 	regSym("strings.Cut", func(fr *frame, a []value) value {
 		s, sep := strArg(a[0]), strArg(a[1])
+		// agentF1: structural fast path (concatenation of separator-free parts and constants)
+		if sep.IsConst() {
+			if parts, ok := fr.i.m.structuralSplit(s, sep.S); ok {
+				if len(parts) == 1 {
+					return tuple{strVal(s), "", false}
+				}
+				var rest []*Term
+				for k, p := range parts[1:] {
+					if k > 0 {
+						rest = append(rest, sep)
+					}
+					rest = append(rest, p)
+				}
+				return tuple{strVal(parts[0]), strVal(mkConcat(rest...)), true}
+			}
+		}
 		if fr.i.m.decide(mkContains(s, sep)) {
 			idx := mkIndexOf(s, sep, mkInt(0))
 			before := mkSubstr(s, mkInt(0), idx)
